@@ -1,14 +1,17 @@
 #!/bin/bash
-# usage: refactest.sh <root>  — applies each behaviour-preserving refactoring to a scratch copy and lists alarms (all are false alarms)
+# usage: refactest.sh [root]  — applies each behaviour-preserving refactoring to a scratch copy
+# and lists the alarms the checker raises on it (every one of them is a false alarm).
 root=${1:-/verif/refactorings}
-for d in $(ls -d $root/*/[0-9]* $root/R*-[0-9]* 2>/dev/null | sort); do
-  [ -f $d/patch.diff ] || continue
+one() {
+  d=$1
+  [ -f $d/patch.diff ] || exit 0
   t=$(mktemp -d /tmp/rf.XXXXXX)
   cp /repo/*.go /repo/go.mod $t/
-  if ! (cd $t && patch -p1 -s < $d/patch.diff >/dev/null 2>&1); then echo "== $d: PATCH DOES NOT APPLY"; rm -rf $t; continue; fi
+  if ! (cd $t && patch -p1 -s < $d/patch.diff >/dev/null 2>&1); then echo "== $d: PATCH DOES NOT APPLY"; rm -rf $t; exit 0; fi
   out=$(/verif/bin/dverif list -bad -repo $t 2>&1 | grep -v "cell:Expm1(-zero)" | grep -v "obligations$")
   n=$(echo -n "$out" | grep -c .)
-  echo "== $d: $n alarms"
-  echo "$out" | cut -c1-${W:-260} | head -${SHOW:-4}
+  { echo "== $d: $n alarms"; [ $n -gt 0 ] && echo "$out" | cut -c1-${W:-260} | head -${SHOW:-4}; } 
   rm -rf $t
-done
+}
+export -f one
+ls -d $root/*/[0-9]* $root/*-[0-9]* 2>/dev/null | sort -u | xargs -P ${J:-8} -I{} bash -c 'one {}' | awk '/^== /{hdr=$0; key=$2} {print key "\t" $0}' | sort -s -k1,1 | cut -f2-
